@@ -32,8 +32,12 @@ def run(ctx, ss):
     from .c09 import c09_5, no_state_effects
     ctx.guard("C10.5", lambda c, s: _as(c, s, c09_5, "C10.5"), ss)
     ctx.guard("C10.5", lambda c, s: no_state_effects(c, s, "C10.5", pf.func(s, DEC, "DecFileParser.expand_decay_modes")), ss)
-    from .shared import memo_discipline
-    ctx.guard("C10.5", memo_discipline, ss, "C10.5", [f"{DEC}:DecFileParser.expand_decay_modes", "decay/decay.py:_expand_decay_modes"], "an expansion")
+    from .shared import memo_discipline, reading_path
+    ctx.guard("C10.5", memo_discipline, ss, "C10.5", ["decay/decay.py:_expand_decay_modes"], "an expansion")
+    ctx.guard("C10.5", reading_path, ss, "C10.5", ["DecFileParser.expand_decay_modes"], "an expansion")
+    # C10.6 'each descriptor spells out precisely that choice': the renderer formats every (mother, daughters) pair with the pattern in force (C13.2 shared)
+    from .c13 import c13_2
+    ctx.guard("C10.6", lambda c, s: _as(c, s, c13_2, "C10.6"), ss)
 
 
 def _product_call(ff):
